@@ -135,7 +135,7 @@ static bool write_and_verify_chunk(zckCtx *src, zckCtx *tgt,
         int rb = BUF_SIZE;
         if(rb > to_read)
             rb = to_read;
-        if(!read_data(src, buf, rb))
+        if(read_data(src, buf, rb) != rb)
             return false;
         if(!hash_update(tgt, &check_hash, buf, rb))
             return false;
